@@ -1,21 +1,44 @@
 """kmip/services/server/engine.py -> gen/LifecycleGuards.v  (tie T for C04).
 
-For each handler the lifecycle model (coq/theories/Lifecycle/Model.v) mirrors, extract the *guard skeleton* in source
-order: every object lookup (with the policy operation it is made under), every `raise exceptions.X` with the chain of
-conditions it sits under, every assignment to `.state`, every CryptographyEngine call, every row deletion and every
-commit.  coq/theories/Lifecycle/GuardTable.v holds the skeleton the model was written against; props/C04.v proves the
-two equal, so any edit of a guard, of its order, of the raised class, of a state assignment or of the position of the
-crypto call breaks an obligation even when no sampled history notices.
+For each handler the lifecycle model (coq/theories/Lifecycle/Model.v) mirrors, extract the *guard skeleton*: every
+object lookup (with the policy operation it is made under), every `raise exceptions.X`, every assignment to `.state`,
+every CryptographyEngine call, every row deletion, commit and return - each with the full list of conditions under
+which control reaches it.  coq/theories/Lifecycle/GuardTable.v holds the skeleton the model was written against;
+props/C04.v proves the two equal, so any edit of a guard, of its order, of the raised class, of a state assignment or
+of the position of the crypto call breaks an obligation even when no sampled history notices.
 
-Fails closed: a `raise` that is not `raise exceptions.<Name>(...)`, an unknown statement kind that contains a raise, or
-a missing handler raises here.
+The skeleton is taken from a NORMAL FORM of the code, so that behaviour-preserving rewrites give the same skeleton:
+
+ N1 reaching conditions instead of syntactic nesting: an event carries every condition that must hold for control to
+    reach it, including the complement of every earlier branch that always terminates (raise / return / break /
+    continue).  `if c: A else: raise X` followed by B   ==   `if not c: raise X` followed by A; B.
+    (`else: if` and `elif` are the same syntax tree already.)
+ N2 conditions are literals (expression, polarity): a leading `not` flips the polarity, `!=`, `not in`, `is not` are the
+    positive comparison with the polarity flipped, `not a or not b` is `a and b` flipped (De Morgan), a true
+    conjunction / false disjunction is split into one literal per operand (so `if a: if b:` == `if a and b:`).
+ N3 branch order: of two exclusive branches the always-terminating one comes first, otherwise the branch taken when the
+    literal's expression is true.
+ N4 a local bound exactly once to a side-effect-free read (a chain of attribute reads rooted in a name, none of whose
+    attribute names is assigned anywhere in the function) is substituted by that chain wherever it is used; a dead
+    `x = None` initialiser (directly followed by an `if` all of whose non-terminating branches assign x) does not count
+    as a binding.  So hoisting `payload.revocation_reason` into a local, or reading `managed_object.value` into `key`
+    before instead of after testing it, changes nothing.
+ N5 `x = A if c else B` is `if c: x = A else: x = B`.
+
+Fails closed (raises, i.e. a broken translation) on anything outside what it understands: a `raise` that is not
+`raise exceptions.<Name>(...)` or a re-raise of the caught exception, statements after a point where every branch has
+terminated, while / with / match / nested def / try-else / try-finally / for-else containing control flow, a call of
+interest (lookup, crypto, delete, commit) inside a conditional or boolean expression, a missing handler.
 """
 import ast
+import copy
 from pathlib import Path
 
 HANDLERS = ['_process_activate', '_process_revoke', '_process_destroy', '_process_encrypt', '_process_decrypt',
             '_process_signature_verify', '_process_mac', '_process_sign', '_process_derive_key', '_process_get',
             '_get_object_with_access_controls', '_get_object_type']
+INTEREST = ('_get_object_with_access_controls', 'delete', 'commit', '_get_object_type', '_is_allowed_by_operation_policy', 'one')
+NEG_OPS = {ast.NotEq: ast.Eq, ast.NotIn: ast.In, ast.IsNot: ast.Is}
 
 
 def q(s):
@@ -29,89 +52,312 @@ def norm(node):
     return ' '.join(ast.unparse(node).split())
 
 
+# ------------------------------------------------------------------------------------------------ N2: literals
+def literal(test):
+    """-> (expression node, polarity) with leading negations / negative comparisons / De Morgan folded into polarity."""
+    if isinstance(test, ast.UnaryOp) and isinstance(test.op, ast.Not):
+        e, p = literal(test.operand)
+        return e, not p
+    if isinstance(test, ast.Compare) and len(test.ops) == 1 and type(test.ops[0]) in NEG_OPS:
+        pos = ast.Compare(left=test.left, ops=[NEG_OPS[type(test.ops[0])]()], comparators=test.comparators)
+        return pos, False
+    if isinstance(test, ast.BoolOp) and isinstance(test.op, ast.Or):
+        lits = [literal(v) for v in flatten(test)]
+        if all(not p for _, p in lits):            # not a or not b  ==  not (a and b)
+            return ast.BoolOp(op=ast.And(), values=[e for e, _ in lits]), False
+    return test, True
+
+
+def flatten(boolop):
+    out = []
+    for v in boolop.values:
+        if isinstance(v, ast.BoolOp) and type(v.op) is type(boolop.op):
+            out += flatten(v)
+        else:
+            out.append(v)
+    return out
+
+
+def split_literal(e, p):
+    """A true conjunction / a false disjunction is one literal per operand."""
+    if isinstance(e, ast.BoolOp) and ((isinstance(e.op, ast.And) and p) or (isinstance(e.op, ast.Or) and not p)):
+        out = []
+        for v in flatten(e):
+            ve, vp = literal(v)
+            out += split_literal(ve, vp if p else not vp)
+        return out
+    if isinstance(e, ast.BoolOp):
+        e = ast.BoolOp(op=e.op, values=flatten(e))
+    return [(norm(e), p)]
+
+
+def show(lits):
+    return ''.join(' & ' + (t if p else 'not (%s)' % t) for t, p in lits)
+
+
+# ------------------------------------------------------------------------------------------------ N4: single bindings
+def pure_chain(node):
+    """Name or attribute chain rooted in a Name -> list of attribute names (root first), else None."""
+    names = []
+    while isinstance(node, ast.Attribute):
+        names.append(node.attr)
+        node = node.value
+    if isinstance(node, ast.Name):
+        return [node.id] + names[::-1]
+    return None
+
+
+def terminates(stmts):
+    """Does this block always end by leaving the enclosing block sequence (raise / return / break / continue)?"""
+    if not stmts:
+        return False
+    last = stmts[-1]
+    if isinstance(last, (ast.Raise, ast.Return, ast.Break, ast.Continue)):
+        return True
+    if isinstance(last, ast.If):
+        return bool(last.orelse) and terminates(last.body) and terminates(last.orelse)
+    return False
+
+
+def assigns_at_top(stmts, name):
+    return any(isinstance(s, ast.Assign) and any(isinstance(t, ast.Name) and t.id == name for t in s.targets) for s in stmts)
+
+
+def branches(ifnode):
+    """The leaf branches of an if / elif / else ladder; None when the ladder has no final else."""
+    out = [ifnode.body]
+    if not ifnode.orelse:
+        return None
+    if len(ifnode.orelse) == 1 and isinstance(ifnode.orelse[0], ast.If):
+        rest = branches(ifnode.orelse[0])
+        return None if rest is None else out + rest
+    return out + [ifnode.orelse]
+
+
+def dead_initialisers(block, found):
+    """`x = None` directly followed by an if-ladder (with else) every non-terminating branch of which assigns x."""
+    for i, st in enumerate(block):
+        if (isinstance(st, ast.Assign) and len(st.targets) == 1 and isinstance(st.targets[0], ast.Name)
+                and isinstance(st.value, ast.Constant) and st.value.value is None and i + 1 < len(block)
+                and isinstance(block[i + 1], ast.If)):
+            bs = branches(block[i + 1])
+            if bs is not None and all(terminates(b) or assigns_at_top(b, st.targets[0].id) for b in bs):
+                found.add(id(st))
+        for field in ('body', 'orelse', 'finalbody'):
+            sub = getattr(st, field, None)
+            if isinstance(sub, list) and sub and isinstance(sub[0], ast.stmt):
+                dead_initialisers(sub, found)
+        for h in getattr(st, 'handlers', []) or []:
+            dead_initialisers(h.body, found)
+
+
+class Substituter(ast.NodeTransformer):
+    def __init__(self, table):
+        self.table = table
+
+    def visit_Name(self, node):
+        if isinstance(node.ctx, ast.Load) and node.id in self.table:
+            return copy.deepcopy(self.table[node.id])
+        return node
+
+
+def single_bindings(func):
+    """{local name: attribute-chain expression} for locals that can be replaced by what they were bound to (N4)."""
+    dead = set()
+    dead_initialisers(func.body, dead)
+    bound = {}                       # name -> list of value nodes (None for bindings we cannot see through)
+    assigned_attrs = set()
+    params = {a.arg for a in func.args.args}
+    for n in ast.walk(func):
+        targets = []
+        if isinstance(n, ast.Assign):
+            if id(n) in dead:
+                continue
+            for t in n.targets:
+                targets.append((t, n.value if len(n.targets) == 1 else None))
+        elif isinstance(n, (ast.AugAssign, ast.AnnAssign)):
+            targets.append((n.target, None))
+        elif isinstance(n, (ast.For, ast.comprehension)):
+            targets.append((n.target, None))
+        elif isinstance(n, ast.ExceptHandler) and n.name:
+            bound.setdefault(n.name, []).append(None)
+        elif isinstance(n, (ast.With,)):
+            for it in n.items:
+                if it.optional_vars is not None:
+                    targets.append((it.optional_vars, None))
+        elif isinstance(n, ast.NamedExpr):
+            targets.append((n.target, None))
+        for t, v in targets:
+            for leaf in ast.walk(t):
+                if isinstance(leaf, ast.Name) and isinstance(leaf.ctx, ast.Store):
+                    bound.setdefault(leaf.id, []).append(v if leaf is t else None)
+                elif isinstance(leaf, ast.Attribute) and isinstance(leaf.ctx, ast.Store):
+                    assigned_attrs.add(leaf.attr)
+    table = {}
+    for name, values in bound.items():
+        if name in params or len(values) != 1 or values[0] is None:
+            continue
+        chain = pure_chain(values[0])
+        if chain is None or len(chain) < 2 or any(a in assigned_attrs for a in chain[1:]):
+            continue
+        if chain[0] == name:
+            continue
+        table[name] = values[0]
+    # resolve chains through other substitutable locals (payload.a -> x; x.b -> y), innermost first, no cycles
+    for _ in range(len(table) + 1):
+        changed = False
+        for name in list(table):
+            new = Substituter({k: v for k, v in table.items() if k != name}).visit(copy.deepcopy(table[name]))
+            if ast.dump(new) != ast.dump(table[name]):
+                table[name] = new
+                changed = True
+        if not changed:
+            break
+    else:
+        raise ValueError('%s: cyclic single bindings' % func.name)
+    return table, dead
+
+
+# ------------------------------------------------------------------------------------------------ the walk
 class Skeleton:
-    def __init__(self, fname):
-        self.fname = fname
+    def __init__(self, func):
+        self.fname = func.name
         self.events = []
+        self.table, self.dead = single_bindings(func)
+        self.sub = Substituter(self.table)
+
+    def s(self, node):
+        return self.sub.visit(copy.deepcopy(node))
 
     def emit(self, kind, text, path):
-        self.events.append('%s %s%s' % (kind, text, ''.join(' <- ' + p for p in reversed(path))))
+        self.events.append(('%s %s' % (kind, text)).strip() + show(path))
 
     def expr_events(self, node, path):
         """Calls of interest inside an expression / simple statement, in source order."""
         found = []
         for n in ast.walk(node):
-            if isinstance(n, ast.Call):
+            if isinstance(n, (ast.IfExp, ast.BoolOp, ast.Lambda, ast.ListComp, ast.SetComp, ast.DictComp, ast.GeneratorExp)):
+                for m in ast.walk(n):
+                    if m is not n and isinstance(m, ast.Call) and self.interesting(m):
+                        raise ValueError('%s: call of interest inside a conditional expression: %s' % (self.fname, norm(n)))
+            if isinstance(n, ast.Call) and self.interesting(n):
                 f = n.func
-                if isinstance(f, ast.Attribute):
-                    if f.attr == '_get_object_with_access_controls':
-                        if len(n.args) != 2:
-                            raise ValueError('%s: unexpected lookup call %s' % (self.fname, norm(n)))
-                        found.append((n.lineno, n.col_offset, 'lookup', '%s as %s' % (norm(n.args[0]), norm(n.args[1]))))
-                    elif isinstance(f.value, ast.Attribute) and f.value.attr == '_cryptography_engine':
-                        found.append((n.lineno, n.col_offset, 'crypto', f.attr))
-                    elif f.attr == 'delete' and not n.args:
-                        found.append((n.lineno, n.col_offset, 'delete', norm(f.value)[:60]))
-                    elif f.attr == 'commit':
-                        found.append((n.lineno, n.col_offset, 'commit', ''))
-                    elif f.attr in ('_get_object_type', '_is_allowed_by_operation_policy', 'one'):
-                        found.append((n.lineno, n.col_offset, 'call', f.attr))
+                if f.attr == '_get_object_with_access_controls':
+                    if len(n.args) != 2 or n.keywords:
+                        raise ValueError('%s: unexpected lookup call %s' % (self.fname, norm(n)))
+                    found.append((n.lineno, n.col_offset, 'lookup', '%s as %s' % (norm(self.s(n.args[0])), norm(self.s(n.args[1])))))
+                elif isinstance(f.value, ast.Attribute) and f.value.attr == '_cryptography_engine':
+                    found.append((n.lineno, n.col_offset, 'crypto', f.attr))
+                elif f.attr == 'delete':
+                    found.append((n.lineno, n.col_offset, 'delete', norm(self.s(f.value))[:60]))
+                elif f.attr == 'commit':
+                    found.append((n.lineno, n.col_offset, 'commit', ''))
+                else:
+                    found.append((n.lineno, n.col_offset, 'call', f.attr))
         for _, _, kind, text in sorted(found):
             self.emit(kind, text, path)
 
+    @staticmethod
+    def interesting(call):
+        f = call.func
+        if not isinstance(f, ast.Attribute):
+            return False
+        if isinstance(f.value, ast.Attribute) and f.value.attr == '_cryptography_engine':
+            return True
+        if f.attr == 'delete':
+            return not call.args
+        return f.attr in INTEREST
+
     def block(self, stmts, path):
-        for st in stmts:
-            self.stmt(st, path)
+        """Walk a statement list; returns True when the block always terminates."""
+        path = list(path)
+        for i, st in enumerate(stmts):
+            if self.stmt(st, path):
+                if i + 1 < len(stmts):
+                    raise ValueError('%s: statements after a point where every branch has terminated (line %d)' % (self.fname, stmts[i + 1].lineno))
+                return True
+        return False
 
     def stmt(self, st, path):
+        """Emit the events of one statement; may extend `path` in place (fall-through conditions); True = terminates."""
         if isinstance(st, ast.Raise):
             e = st.exc
-            if isinstance(e, ast.Name) and any(p.startswith('except ') and p.endswith(' as ' + e.id) for p in path):
+            if isinstance(e, ast.Name) and any(t == '<except ... as %s>' % e.id or t.endswith(' as %s>' % e.id) for t, _ in path):
                 self.emit('reraise', e.id, path)
-                return
+                return True
             if not (isinstance(e, ast.Call) and isinstance(e.func, ast.Attribute) and isinstance(e.func.value, ast.Name)
                     and e.func.value.id == 'exceptions'):
                 raise ValueError('%s: raise of an unrecognised shape: %s' % (self.fname, norm(st)))
             self.emit('raise', e.func.attr, path)
-        elif isinstance(st, ast.If):
-            c = norm(st.test)
-            self.expr_events(st.test, path)
-            self.block(st.body, path + ['if ' + c])
-            if st.orelse:
-                self.block(st.orelse, path + ['unless ' + c])
-        elif isinstance(st, ast.For):
-            self.expr_events(st.iter, path)
-            self.block(st.body, path + ['for %s in %s' % (norm(st.target), norm(st.iter))])
-            if st.orelse:
-                raise ValueError('%s: for/else' % self.fname)
-        elif isinstance(st, ast.Try):
-            self.block(st.body, path + ['try'])
-            for h in st.handlers:
-                self.block(h.body, path + ['except ' + (norm(h.type) if h.type is not None else '') + (' as ' + h.name if h.name else '')])
-            if st.orelse or st.finalbody:
-                raise ValueError('%s: try/else/finally' % self.fname)
-        elif isinstance(st, ast.Assign):
-            self.expr_events(st.value, path)
-            for t in st.targets:
-                if isinstance(t, ast.Attribute) and t.attr == 'state':
-                    self.emit('set', '%s = %s' % (norm(t), norm(st.value)), path)
-                elif isinstance(t, ast.Name):
-                    v = norm(st.value)
-                    if any(k in v for k in ('enums.CryptographicUsageMask', 'enums.State', 'enums.ObjectType',
-                                            '.cryptographic_usage_masks', '.state', '._object_type')):
-                        self.emit('let', '%s = %s' % (t.id, v[:120]), path)
-        elif isinstance(st, ast.Return):
+            return True
+        if isinstance(st, ast.Return):
             if st.value is not None:
                 self.expr_events(st.value, path)
             self.emit('return', '', path)
-        elif isinstance(st, ast.Break):
-            self.emit('break', '', path)
-        elif isinstance(st, (ast.Expr, ast.AugAssign, ast.Delete, ast.Pass)):
+            return True
+        if isinstance(st, (ast.Break, ast.Continue)):
+            self.emit(type(st).__name__.lower(), '', path)
+            return True
+        if isinstance(st, ast.If):
+            self.expr_events(st.test, path)
+            e, p = literal(self.s(st.test))
+            tb, fb = (st.body, st.orelse) if p else (st.orelse, st.body)      # branch taken when e is true / false
+            tl, fl = split_literal(e, True), split_literal(e, False)
+            t_term, f_term = terminates(tb), terminates(fb)
+            order = [(fb, fl), (tb, tl)] if (f_term and not t_term) else [(tb, tl), (fb, fl)]     # N3
+            for b, l in order:
+                if b:
+                    if self.block(b, path + l) != terminates(b):
+                        raise ValueError('%s: inconsistent termination analysis at line %d' % (self.fname, st.lineno))
+            if t_term and f_term:
+                return True
+            if t_term:
+                path.extend(fl)
+            elif f_term:
+                path.extend(tl)
+            return False
+        if isinstance(st, ast.For):
+            if st.orelse:
+                raise ValueError('%s: for/else' % self.fname)
+            self.expr_events(st.iter, path)
+            self.block(st.body, path + [('<for %s in %s>' % (norm(st.target), norm(self.s(st.iter))), True)])
+            return False
+        if isinstance(st, ast.Try):
+            if st.orelse or st.finalbody:
+                raise ValueError('%s: try/else/finally' % self.fname)
+            body_term = self.block(st.body, path + [('<try>', True)])
+            terms = [body_term]
+            for h in st.handlers:
+                tag = '<except %s%s>' % (norm(h.type) if h.type is not None else '', ' as ' + h.name if h.name else '')
+                terms.append(self.block(h.body, path + [(tag, True)]))
+            return all(terms)
+        if isinstance(st, ast.Assign):
+            if isinstance(st.value, ast.IfExp) and len(st.targets) == 1:                   # N5
+                v = st.value
+                as_if = ast.If(test=v.test, body=[ast.Assign(targets=st.targets, value=v.body, lineno=st.lineno)],
+                               orelse=[ast.Assign(targets=st.targets, value=v.orelse, lineno=st.lineno)], lineno=st.lineno)
+                ast.fix_missing_locations(as_if)
+                return self.stmt(as_if, path)
+            self.expr_events(st.value, path)
+            for t in st.targets:
+                if isinstance(t, ast.Attribute) and t.attr == 'state':
+                    self.emit('set', '%s = %s' % (norm(self.s(t)), norm(self.s(st.value))), path)
+                elif isinstance(t, ast.Name) and t.id not in self.table and id(st) not in self.dead \
+                        and not any(isinstance(n, ast.Call) for n in ast.walk(st.value)):
+                    v = norm(self.s(st.value))
+                    if any(k in v for k in ('enums.CryptographicUsageMask', 'enums.State', 'enums.ObjectType',
+                                            '.cryptographic_usage_masks', '.state', '._object_type')):
+                        self.emit('let', '%s = %s' % (t.id, v[:160]), path)
+            return False
+        if isinstance(st, (ast.Expr, ast.AugAssign, ast.AnnAssign, ast.Delete, ast.Pass)):
             self.expr_events(st, path)
-        else:
-            if any(isinstance(n, (ast.Raise, ast.Return)) for n in ast.walk(st)):
-                raise ValueError('%s: control flow inside an unhandled statement kind %s' % (self.fname, type(st).__name__))
-            self.expr_events(st, path)
+            return False
+        # anything else (while, with, match, def, assert, ...) must not hide control flow or calls of interest
+        for n in ast.walk(st):
+            if isinstance(n, (ast.Raise, ast.Return, ast.Break, ast.Continue)) or (isinstance(n, ast.Call) and self.interesting(n)):
+                raise ValueError('%s: control flow or a call of interest inside an unhandled statement kind %s (line %d)'
+                                 % (self.fname, type(st).__name__, st.lineno))
+        return False
 
 
 def skeletons(repo):
@@ -125,8 +371,12 @@ def skeletons(repo):
     for h in HANDLERS:
         if h not in funcs:
             raise ValueError('handler %s not found' % h)
-        sk = Skeleton(h)
-        body = funcs[h].body
+        f = funcs[h]
+        for n in ast.walk(f):
+            if n is not f and isinstance(n, (ast.FunctionDef, ast.AsyncFunctionDef, ast.ClassDef, ast.Global, ast.Nonlocal)):
+                raise ValueError('%s: nested definition / global declaration' % h)
+        sk = Skeleton(f)
+        body = f.body
         if body and isinstance(body[0], ast.Expr) and isinstance(getattr(body[0], 'value', None), ast.Constant):
             body = body[1:]         # docstring
         sk.block(body, [])
